@@ -287,7 +287,7 @@ class Interp:
             return T("gen", phi([v for v, _ in fr.yields]) if fr.yields else unknown("no-yield"))
         if not fr.returns:
             return NONE
-        return phi([v for v, _ in fr.returns])
+        return _merge_returns(fr.returns)
 
     # ---------------------------------------------------------- statements
     def exec_block(self, fr, stmts):
@@ -1512,7 +1512,9 @@ class Interp:
             nfr.returns.append((v, nfr.guards))
             self.emit(nfr, "return", fi.node.body, value=v)
         else:
-            self.exec_block(nfr, fi.node.body)
+            if self.exec_block(nfr, fi.node.body) and nfr.returns:
+                # control can fall off the end of a function that also has explicit returns: an implicit `return None`
+                nfr.returns.append((NONE, nfr.guards))
         # propagate field bindings back (strong updates made by the callee)
         for k, v in nfr.env.items():
             if isinstance(k, tuple):
@@ -1525,6 +1527,36 @@ class Interp:
         if fi.fq in self.no_inline or fi.qualname in self.no_inline:
             return False
         return True
+
+
+def _merge_returns(returns):
+    """The value of a call with several `return`s: a decision tree of ifexp terms over the guards that separate them
+    (`if c: return a` / `return b` is `a if c else b`, exactly what join() builds for a variable assigned in both
+    branches), a plain phi when the guards do not form such a tree."""
+    def build(rs, depth):
+        if len(rs) == 1:
+            return rs[0][0]
+        if any(len(g) <= depth for _, g in rs):
+            return None
+        c = rs[0][1][depth][0]
+        if any(g[depth][0] != c for _, g in rs):
+            return None
+        yes = [r for r in rs if r[1][depth][1] is True]
+        no = [r for r in rs if r[1][depth][1] is False]
+        if len(yes) + len(no) != len(rs):
+            return None
+        if not yes or not no:
+            return build(rs, depth + 1)
+        a, b = build(yes, 0 + depth + 1), build(no, depth + 1)
+        if a is None or b is None:
+            return None
+        return a if a == b else T("ifexp", c, a, b)
+    vals = [v for v, _ in returns]
+    if len(returns) > 1 and len(set(vals)) > 1:
+        t = build(list(returns), 0)
+        if t is not None:
+            return t
+    return phi(vals)
 
 
 def _always_raises(body):
